@@ -1,7 +1,7 @@
 SPECIFICATION Spec
 CONSTANTS
   Secrets = {"k1", "k2", "k1 "}
-  Users = {"@alice:example.org", "@Alice:example.org", "@bob:example.org"}
+  Users = {"@alice:example.org", "@Alice:example.org", "@bob:example.org", "user1", "_irc_dave"}
   Durations = {0, 5, 3600, 3601, 86400}
   Offsets <- OffsetsQuick
   MaxAlter = 1
